@@ -149,6 +149,15 @@ class SimRLock:
             return self._real._is_owned()
         return self._owner is me
 
+    def _recursion_count(self):
+        s, me = _me()
+        if me is None:
+            return self._real._recursion_count()
+        return self._count if self._owner is me else 0
+
+    def locked(self):
+        return self._owner is not None or (hasattr(self._real, 'locked') and self._real.locked())
+
     def _release_save(self):
         s, me = _me()
         if me is None:
